@@ -92,6 +92,8 @@ def judge(ctx, s, exp, impl, model, origin):
         ctx.disagreement("hl model vs hostlist.c (probe)", "expr %r: impl `%s` model `%s`" %
                          (s[:200], impl[:300], model[:300]), case)
     p = parse_probe(impl)
+    if p["kind"] == "skipped":
+        return False
     if p["kind"] in ("crash", "timeout", "oom"):
         ctx.offender(crash_signature(s, p), "hostlist_create/next/shift on a well-formed expression: %s" % impl[:100],
                      dict(case, impl=impl[:300]))
@@ -172,7 +174,7 @@ def run(ctx):
                 break
             spec = hl.spec([c[0] for c in cases])
             # texts outside C01's domain (the spec names a problem / a bound >= 2^64) are C15's business
-            keep = [i for i, sp in enumerate(spec) if cases[i][1] is not None or (sp.startswith("ok |"))]
+            keep = [i for i, sp in enumerate(spec) if cases[i][1] is not None or (sp.startswith("ok"))]
             dist["outside-domain-skipped"] += len(cases) - len(keep)
             cases = [cases[i] for i in keep]
             spec = [spec[i] for i in keep]
@@ -181,9 +183,17 @@ def run(ctx):
             ctx.log("chunk: impl+model done (%d forked so far)" % hl.nfork)
             for (s, exp, origin), sp, a, b in zip(cases, spec, impl, model):
                 v = parse_spec(sp)
+                if v.get("note64"):
+                    # a bound of 2^64-1 (the largest value of the implementation's number type, which it uses
+                    # as a sentinel) or beyond: outside C01's domain, judged by C15
+                    dist["outside-domain-skipped"] += 1
+                    if not same_answer(a, b):
+                        ctx.disagreement("hl model vs hostlist.c (probe)", "expr %r: impl `%s` model `%s`" %
+                                         (s[:200], a[:300], b[:300]), {"expr_hex": hx(s[:4000])})
+                    continue
                 if exp is not None:
                     # the two independent expanders must agree on generated well-formed text
-                    if not v["ok"] or v["hosts1"] != exp or v["note64"]:
+                    if not v["ok"] or v["hosts1"] != exp:
                         ctx.disagreement("Lean string-level spec vs AST-level expander",
                                          "expr %r: spec `%s`, AST expansion has %d hosts" % (s[:200], sp[:200], len(exp)),
                                          {"expr_hex": hx(s[:4000])})
@@ -213,6 +223,7 @@ def run(ctx):
             rep = json.load(open(ctx.replay))
             if rep["case"].get("origin") == "cli":
                 cli_check(ctx, hl, dist, cov, only=unhx(rep["case"]["expr_hex"]))
+    dist["probed-variant"] = hl.probed()
     cov["distribution"] = dist
     cov["traces_validated_against_impl"] = cov["evaluations"]
     for b in ctx.broken[:4]:
